@@ -141,7 +141,7 @@ func genPool(r *rand.Rand, k kind, maxLen int, small bool) []val {
 		}
 	case kFloat:
 		// no negative zero, no NaN/Inf
-		cands := []float64{0, 1, -1, 0.5, -0.5, 1.25, -2.75, 1e15, -1e15, 123456.789, 0.000244140625, -0.000244140625, 3, -3}
+		cands := []float64{0, 1, -1, 0.5, -0.5, 1.25, 1.5, 1.75, -2.75, -2.25, 3.25, 3.5, 1e15, -1e15, 123456.789, 0.000244140625, -0.000244140625, 3, -3}
 		for i := 0; i < n; i++ {
 			out = append(out, val{K: kFloat, F: cands[r.IntN(len(cands))]})
 		}
@@ -390,6 +390,39 @@ func genSchema(r *rand.Rand) *schema {
 			uq = uq || s.col(cn).Uniq
 		}
 		add(index{Cols: cols, Unique: uq && r.IntN(2) == 0, Late: r.IntN(3) == 0})
+	}
+	if r.IntN(10) < 8 {
+		// a composite index led by a numeric column: narrow ranges on the leading column
+		// with ORDER BY / GROUP BY on the next one
+		lead := s.col("i0")
+		for _, c := range s.Cols {
+			if c.K == kFloat && (lead.K != kFloat || r.IntN(2) == 0) {
+				lead = c
+			}
+		}
+		var next, bare []*column
+		for _, c := range indexable {
+			if c != lead {
+				next = append(next, c)
+				if !seen[c.Name] && !c.PK {
+					bare = append(bare, c)
+				}
+			}
+		}
+		if len(bare) > 0 && r.IntN(4) != 0 {
+			// (an index on the next column alone would be preferred by the planner for ORDER BY on it)
+			next = bare
+		}
+		if r.IntN(2) == 0 {
+			lead.NotNull = true // no NULLs under the leading column in half of the schemas
+		}
+		cols := []string{lead.Name, next[r.IntN(len(next))].Name}
+		if r.IntN(3) == 0 {
+			if c := next[r.IntN(len(next))]; c.Name != cols[1] {
+				cols = append(cols, c.Name)
+			}
+		}
+		add(index{Cols: cols, Late: r.IntN(4) == 0})
 	}
 	if len(s.Idx) == 0 {
 		add(index{Cols: []string{"i0"}})
@@ -991,6 +1024,212 @@ func aggTargets(r *rand.Rand, s *schema, qual string) []target {
 	return ts
 }
 
+// genLeadPred bounds column a (the leading column of a composite index) in the ways a planner
+// may take for "a single value": equality, IN, point and adjacent-integer ranges with mixed
+// strict / inclusive ends, redundant and contradictory bounds, integer constants against a
+// FLOAT column, constants on either side, literals or parameters.
+func genLeadPred(r *rand.Rand, s *schema, a *column) pred {
+	col := "{q}" + a.Name
+	kn := kindName[a.K]
+	k := func(v val) string { return s.operand(r, v) }
+	w := r.IntN(100)
+	numeric := a.K == kInt || a.K == kFloat
+	if !numeric || a.Uniq {
+		switch {
+		case w < 35:
+			return pred{fmt.Sprintf("%s = %s", col, k(s.near(r, a))), "lead-eq-" + kn, a}
+		case w < 50:
+			return pred{fmt.Sprintf("%s = %s", k(s.near(r, a)), col), "lead-eq-" + kn, a}
+		case w < 70:
+			return pred{fmt.Sprintf("%s IN (%s, %s)", col, k(s.near(r, a)), k(s.near(r, a))), "lead-in-" + kn, a}
+		case w < 80 || a.K == kBool:
+			return pred{fmt.Sprintf("%s IN (%s)", col, k(s.near(r, a))), "lead-in-" + kn, a}
+		default:
+			v := s.near(r, a)
+			return pred{fmt.Sprintf("%s >= %s AND %s <= %s", col, k(v), col, k(v)), "lead-point-range-" + kn, a}
+		}
+	}
+	// an integer n close to a stored value; the bounds are INTEGER constants also for FLOAT columns
+	pv := a.Pool[r.IntN(len(a.Pool))]
+	var n int64
+	if a.K == kInt {
+		n = pv.I
+		if n > 1<<62 || n < -(1<<62) {
+			n = 0
+		}
+	} else {
+		f := pv.F
+		if f > 1e9 || f < -1e9 {
+			f = 0
+		}
+		n = int64(f)
+		if float64(n) > f {
+			n-- // floor
+		}
+	}
+	if r.IntN(5) < 2 {
+		n += int64(r.IntN(3)) - 1
+	}
+	iv := func(x int64) string { return k(val{K: kInt, I: x}) }
+	fv := func(x int64) string { // the same bound, typed as the column now and then
+		if a.K == kFloat && r.IntN(5) == 0 {
+			return k(val{K: kFloat, F: float64(x)})
+		}
+		return iv(x)
+	}
+	ge, gt, le, lt := ">=", ">", "<=", "<"
+	switch {
+	case w < 10:
+		return pred{fmt.Sprintf("%s = %s", col, fv(n)), "lead-eq-" + kn, a}
+	case w < 18:
+		return pred{fmt.Sprintf("%s IN (%s, %s)", col, fv(n), fv(n+1)), "lead-in-" + kn, a}
+	case w < 30: // n <= a < n+1
+		return pred{fmt.Sprintf("%s %s %s AND %s %s %s", col, ge, fv(n), col, lt, fv(n+1)), "lead-adjacent-range-" + kn, a}
+	case w < 40: // n < a <= n+1
+		return pred{fmt.Sprintf("%s %s %s AND %s %s %s", col, gt, fv(n), col, le, fv(n+1)), "lead-adjacent-range-" + kn, a}
+	case w < 48: // the same, constants on the left
+		return pred{fmt.Sprintf("%s %s %s AND %s %s %s", fv(n), le, col, fv(n+1), gt, col), "lead-adjacent-range-rev-" + kn, a}
+	case w < 54:
+		return pred{fmt.Sprintf("%s %s %s AND %s %s %s", fv(n+1), ge, col, fv(n), lt, col), "lead-adjacent-range-rev-" + kn, a}
+	case w < 60: // both ends inclusive / both strict
+		if r.IntN(2) == 0 {
+			return pred{fmt.Sprintf("%s BETWEEN %s AND %s", col, fv(n), fv(n+1)), "lead-adjacent-range-" + kn, a}
+		}
+		return pred{fmt.Sprintf("%s %s %s AND %s %s %s", col, gt, fv(n), col, lt, fv(n+1)), "lead-adjacent-range-" + kn, a}
+	case w < 68: // point range
+		return pred{fmt.Sprintf("%s %s %s AND %s %s %s", col, ge, fv(n), col, le, fv(n)), "lead-point-range-" + kn, a}
+	case w < 80: // redundant bounds: a > n AND a >= n+1 AND a <= n+2
+		parts := []string{
+			fmt.Sprintf("%s %s %s", col, gt, fv(n)),
+			fmt.Sprintf("%s %s %s", col, ge, fv(n+1)),
+			fmt.Sprintf("%s %s %s", col, le, fv(n+2)),
+		}
+		if r.IntN(2) == 0 {
+			parts = append(parts, fmt.Sprintf("%s %s %s", col, lt, fv(n+3)))
+		}
+		r.Shuffle(len(parts), func(i, j int) { parts[i], parts[j] = parts[j], parts[i] })
+		return pred{strings.Join(parts, " AND "), "lead-redundant-range-" + kn, a}
+	case w < 86: // contradictory bounds
+		return pred{fmt.Sprintf("%s %s %s AND %s %s %s", col, gt, fv(n+1), col, lt, fv(n)), "lead-contradictory-range-" + kn, a}
+	case w < 93: // wider range
+		return pred{fmt.Sprintf("%s %s %s AND %s %s %s", col, []string{ge, gt}[r.IntN(2)], fv(n-1), col, []string{le, lt}[r.IntN(2)], fv(n+2)), "lead-range-" + kn, a}
+	default: // one-sided
+		return pred{fmt.Sprintf("%s %s %s", col, []string{ge, gt, le, lt}[r.IntN(4)], fv(n)), "lead-range-" + kn, a}
+	}
+}
+
+// genNextCol builds a query that bounds the leading column(s) of a composite index and orders /
+// groups / de-duplicates on the next index column(s), without an index hint.
+func genNextCol(r *rand.Rand, s *schema, q *query) bool {
+	var comp []index
+	for _, ix := range s.Idx {
+		if len(ix.Cols) > 1 {
+			comp = append(comp, ix)
+		}
+	}
+	if len(comp) == 0 {
+		return false
+	}
+	ix := comp[r.IntN(len(comp))]
+	if r.IntN(10) < 6 {
+		for _, c := range comp {
+			if k := s.col(c.Cols[0]).K; (k == kFloat || k == kInt) && !s.col(c.Cols[0]).Uniq && !s.col(c.Cols[0]).PK {
+				ix = c
+			}
+		}
+	}
+	nlead := 1
+	if len(ix.Cols) > 2 && r.IntN(3) == 0 {
+		nlead = 2
+	}
+	var parts []string
+	var classes []string
+	for _, cn := range ix.Cols[:nlead] {
+		lp := genLeadPred(r, s, s.col(cn))
+		parts = append(parts, lp.Tpl)
+		classes = append(classes, lp.Class)
+	}
+	pr := pred{strings.Join(parts, " AND "), strings.Join(classes, "+"), s.col(ix.Cols[0])}
+	if r.IntN(5) == 0 { // and something else
+		x := genLeaf(r, s, false)
+		pr.Tpl = "(" + pr.Tpl + ") AND (" + x.Tpl + ")"
+	}
+	q.Where = &pr
+	q.Kind = "nextcol"
+	next := ix.Cols[nlead:]
+	nord := 1 + r.IntN(len(next))
+	desc := r.IntN(2) == 0
+	dir := map[bool]string{false: "asc", true: "desc"}[desc]
+	switch w := r.IntN(100); {
+	case w < 30: // rows ordered by the next column(s): multiset + sortedness
+		for i, c := range s.Cols {
+			if i < len(s.PK) || r.IntN(2) == 0 {
+				q.Targets = append(q.Targets, target{Expr: "{q}" + c.Name, K: c.K})
+			}
+		}
+		for _, cn := range next[:nord] {
+			q.Targets = append(q.Targets, target{Expr: "{q}" + cn, K: s.col(cn).K})
+			q.Order = append(q.Order, ordCol{T: len(q.Targets) - 1, Desc: desc})
+		}
+		q.Mods = "next-col-orderby-" + dir
+	case w < 65: // only the ordering columns are selected: the sequence is fully determined, LIMIT / OFFSET allowed
+		for _, cn := range next[:nord] {
+			q.Targets = append(q.Targets, target{Expr: "{q}" + cn, K: s.col(cn).K})
+			q.Order = append(q.Order, ordCol{T: len(q.Targets) - 1, Desc: desc})
+		}
+		q.Total = true
+		q.Mods = "next-col-orderby-" + dir
+		if r.IntN(3) != 0 {
+			q.Limit = 1 + r.IntN(8)
+			if r.IntN(3) == 0 {
+				q.Offset = r.IntN(4)
+			}
+			q.Mods += "+limit"
+		}
+	case w < 85: // GROUP BY the next column(s)
+		var g []string
+		for _, cn := range next[:nord] {
+			q.Targets = append(q.Targets, target{Expr: "{q}" + cn, K: s.col(cn).K})
+			g = append(g, "{q}"+cn)
+		}
+		q.GroupBy = strings.Join(g, ", ")
+		q.Targets = append(q.Targets, target{Expr: "COUNT(*)", K: kInt})
+		if r.IntN(2) == 0 {
+			q.Targets = append(q.Targets, target{Expr: "MIN({q}" + s.PK[0].Name + ")", K: s.PK[0].K})
+		}
+		q.Mods = "next-col-groupby"
+		if r.IntN(2) == 0 {
+			for i := 0; i < nord; i++ {
+				q.Order = append(q.Order, ordCol{T: i, Desc: desc})
+			}
+			q.Total = true
+			q.Mods += "+orderby-" + dir
+			if r.IntN(3) == 0 {
+				q.Limit = 1 + r.IntN(5)
+				q.Mods += "+limit"
+			}
+		}
+	default: // DISTINCT on the next column(s)
+		q.Distinct = true
+		for _, cn := range next[:nord] {
+			q.Targets = append(q.Targets, target{Expr: "{q}" + cn, K: s.col(cn).K})
+		}
+		q.Mods = "next-col-distinct"
+		if r.IntN(2) == 0 {
+			for i := 0; i < nord; i++ {
+				q.Order = append(q.Order, ordCol{T: i, Desc: desc})
+			}
+			q.Total = true
+			q.Mods += "+orderby-" + dir
+			if r.IntN(3) == 0 {
+				q.Limit = 1 + r.IntN(5)
+				q.Mods += "+limit"
+			}
+		}
+	}
+	return true
+}
+
 func genQuery(r *rand.Rand, s *schema, id int, syncTxs []uint64) *query {
 	q := &query{ID: id}
 	allTargets := func(qual string) []target {
@@ -1023,8 +1262,14 @@ func genQuery(r *rand.Rand, s *schema, id int, syncTxs []uint64) *query {
 		}
 	}
 	w := r.IntN(100)
+	if w >= 28 && w < 44 {
+		if genNextCol(r, s, q) {
+			q.Shape = q.shape()
+			return q
+		}
+	}
 	switch {
-	case w < 42:
+	case w < 44:
 		q.Kind = "select"
 		if r.IntN(10) < 4 {
 			q.Star = true
